@@ -5,7 +5,7 @@ from absn import *
 import common as C
 
 PROP = 'C14'
-LEAN_MODULES = ['PMV.Props.C14']
+LEAN_MODULES = ['PMV.Props.C14', 'PMV.Props.C14Gen']
 PARALLEL = True
 MANIFEST = {
     'text': 'Kernel-checked theorems (PMV/Props/C14.lean) that the code-shaped element functions and lane reductions of the '
@@ -15,7 +15,7 @@ MANIFEST = {
             'operands to the real polymath code and to the compiled model and diffs canonical outputs (exhaustive over '
             '{T,F,masked} arrays; all representations; all axes).',
     'design': 'DESIGN.md §3 C14',
-    'technique': 'Lean 4 proof (truth tables by case analysis, lanes by induction) + model/code correspondence',
+    'technique': 'Lean 4 proof (truth tables by case analysis, lanes by induction; element functions regenerated from the source by a translator and re-proved by decide) + model/code correspondence',
     'note': 'Trusted: Lean kernel; hand-written model Model/Logic3.lean (checked against the code by the correspondence run); '
             'NumPy axis handling. Empty-lane corner under a scalar True mask is known finding KF-C14-1.',
 }
@@ -28,6 +28,12 @@ ASSUMPTIONS = ['axis arguments are normalised by NumPy (np.any/np.all), the mode
                'corner, excluded from the theorems by hypothesis xs != [] and recorded as known finding KF-C14-1)']
 
 T, F, M = 't', 'f', 'm'
+
+
+def regen():
+    """T2: regenerate PMV/Gen/Tvl.lean from the current source of tvl.py / qube.py"""
+    import os, c14_py2lean
+    return c14_py2lean.regen(os.environ.get('PMV_REPO') or '/repo', C.LEAN)
 
 
 # ------------------------------------------------------------------ reference tables (independent of the model)
